@@ -84,11 +84,14 @@ type PeerCfg struct {
 	AnswerDelay   func() time.Duration
 	AnswerFn      func(p *RefPeer, r refwire.Request) int // overrides AnswerWeights
 
-	OnMessage   func(p *RefPeer, m refwire.Message) bool // true: handled, skip the default
-	OnReady     func(p *RefPeer)                         // after the handshakes
-	StopRead    bool                                     // never read (congestion)
-	NoKeepAlive bool
-	NoMonitor   bool // a peer that misbehaves on purpose does not judge the system's answers
+	OnMessage func(p *RefPeer, m refwire.Message) bool // true: handled, skip the default
+	OnReady   func(p *RefPeer)                         // after the handshakes
+	StopRead  bool                                     // never read (congestion)
+	// LeaveAfterHandshake n > 0: with probability 1/n per connection the
+	// peer closes (or resets) the connection as soon as the handshake is over
+	LeaveAfterHandshake int
+	NoKeepAlive         bool
+	NoMonitor           bool // a peer that misbehaves on purpose does not judge the system's answers
 }
 
 type action struct {
@@ -136,19 +139,19 @@ type RefPeer struct {
 	wake     simrt.WaitQ
 
 	// what the system told us
-	SysHS         refwire.Handshake
+	SysHS refwire.Handshake
 	// RepliesToOurHandshake counts the connections we opened on which the
 	// system answered our handshake with its own (never reset)
 	RepliesToOurHandshake int
-	SysExt        *refwire.ExtHandshake
-	SysExtIDs     map[string]int64
-	SysHave       map[int]bool
-	SysBitfield   []byte
-	SysHaveAll    bool
-	SysInterested bool
-	SysUnchokedUs bool
-	Recv          []RecvMsg
-	Encrypted     bool
+	SysExt                *refwire.ExtHandshake
+	SysExtIDs             map[string]int64
+	SysHave               map[int]bool
+	SysBitfield           []byte
+	SysHaveAll            bool
+	SysInterested         bool
+	SysUnchokedUs         bool
+	Recv                  []RecvMsg
+	Encrypted             bool
 
 	// what we told the system
 	Have        []bool
@@ -418,6 +421,18 @@ func (p *RefPeer) run(initiate bool) {
 	}
 	p.conn.SetDeadline(time.Time{})
 	p.W.rc.Tracef("%s: connected (inbound=%v encrypted=%v sys fast=%v ext=%v)", p.Cfg.Name, p.Inbound, p.Encrypted, p.SysHS.Fast(), p.SysHS.Extended())
+	if p.Cfg.LeaveAfterHandshake > 0 && p.W.st.Bool(1, p.Cfg.LeaveAfterHandshake) {
+		// gone as soon as the handshake is over (a port scanner, a client
+		// that only wanted the peer id): the system's first writes fail
+		simrt.Fault("peer-leaves-right-after-handshake")
+		for n := p.W.st.Choice(4); n > 0; n-- {
+			simrt.Y(-1)
+		}
+		if p.W.st.Bool(1, 2) {
+			p.conn.Reset()
+		}
+		return
+	}
 	p.sendPreamble()
 	p.Ready = true
 	p.event("ready")
@@ -1096,7 +1111,7 @@ func (p *RefPeer) conform(m refwire.Message) {
 		// had sent when it *handled* the choke: an earlier request that
 		// arrived after the last quiescent point before which we did not
 		// choke may have been voided that way, and asking again is right)
-		if r := p.Outstanding[blk{i, m.Begin}]; r != nil && !p.sentMisaddressed && (fast || p.lastChokeEpoch < r.Epoch) {
+		if r := p.Outstanding[blk{i, m.Begin}]; r != nil && !r.Cancelled && !p.sentMisaddressed && (fast || p.lastChokeEpoch < r.Epoch) { // (a request the system has cancelled is no longer outstanding for it, answered or not: asking again is not a duplicate)
 			hist := ""
 			for _, r := range p.ReqLog {
 				if r.Req.Index == m.Index && r.Req.Begin == m.Begin {
@@ -1120,7 +1135,7 @@ func (p *RefPeer) conform(m refwire.Message) {
 		// last choke are known not to have been voided by it)
 		nout := 1
 		for _, r := range p.Outstanding {
-			if fast || p.lastChokeEpoch < r.Epoch {
+			if (fast || p.lastChokeEpoch < r.Epoch) && !r.Cancelled {
 				nout++
 			}
 		}
